@@ -104,6 +104,9 @@ struct C02Vis {
 			op("elements:const-vs-mutable"); auto i = els.begin(); auto c = cels.begin(); i += k; c += k; decltype(c) c2 = i; if(!(c2 == c)) violation("C02:elements:const-eq-mutable", "const and mutable element iterators at one position compare unequal");
 		}
 		count("views_walked");
+		// a view of dimensionality >= 2 whose LEADING stride is negative: reachable (assertions enabled) through a 1-D negative-stride slice that is then partitioned
+		if constexpr(D == 1) { L const n1 = s0 - 1; L const kk = (n1 >= 2 && n1 % 2 == 0) ? 2 : ((n1 >= 3 && n1 % 3 == 0) ? 3 : 0);
+			if(kk != 0 && g->chance(1, 2)) { op("negative-leading-stride"); describe(" + sliced(" + std::to_string(s0 - 1) + ",0,-1).partitioned(" + std::to_string(kk) + ")"); count("negative-leading-stride-views"); final(v.sliced(s0 - 1, 0, -1).partitioned(kk), m_partitioned(m_sliced_neg(m, s0 - 1, 0, 1), kk)); } }
 	}
 };
 
